@@ -57,9 +57,7 @@ def stepCsign (ws : List String) : String × Verdict :=
     | .err e => ("err " ++ e.toString, .fail)
     | .panic _ => ("panic", .fail)
 
-def step (op impl : String) : String × Verdict :=
-  let ws := op.splitOn " "
-  if ws.head? == some "csign" then stepCsign ws else
+def stepSign (ws : List String) (impl : String) : String × Verdict :=
   let r := do
     let spec := (field "wallet=" ws).splitOn ":"
     let typ ← spec[0]?
@@ -94,6 +92,34 @@ def step (op impl : String) : String × Verdict :=
         field "inner=" iw == "same" && field "hdr=" iw == "same" && field "orig=" iw == "same" &&
         !enc && typ != "xpub"
       (m, if good then .unknown else .fail)
+
+/-- owners (entry index) of the six funded outputs of each wallet of the visor world -/
+def fundedOwners : List Nat := [0, 1, 0, 2, 1, 2]
+
+/-- `vsign`: Visor.WalletSignTransaction must behave as wallet.SignTransaction on the (unlocked)
+wallet: same spec, and resubmitting the same request on the result is refused -/
+def stepVsign (ws : List String) (impl : String) : String × Verdict :=
+  let ux := (items (field "ux=" ws)).map fun (f : String) =>
+    match (f.drop 1).toString.toNat? with
+    | some j => s!"e{fundedOwners.getD j 0}"
+    | none => "e0"
+  let signOp := ["sign", "wallet=deterministic:00:3:0", "nent=3", "ux=" ++ (if ux.isEmpty then "-" else ",".intercalate ux),
+                 "sigs=" ++ field "sigs=" ws, "idx=" ++ field "idx=" ws, "inner=ok"]
+  let (mainImpl, againImpl) := match impl.splitOn " again=" with
+    | [a, b] => (a, some b)
+    | _ => (impl, none)
+  let (m, v) := stepSign signOp mainImpl
+  let expect := if m.startsWith "ok" then m ++ " again=err Error(other)" else m
+  let againBad := match againImpl with
+    | some b => !b.startsWith "err"
+    | none => false
+  (expect, if againBad then .fail else v)
+
+def step (op impl : String) : String × Verdict :=
+  let ws := op.splitOn " "
+  if ws.head? == some "csign" then stepCsign ws
+  else if ws.head? == some "vsign" then stepVsign ws impl
+  else stepSign ws impl
 
 end Sky.C13
 
